@@ -53,8 +53,11 @@ func vhC05PutStep() {
 	held := s.kv.held()
 	rec, ok := s.kv.record()
 	vsAssert(ok, "size-record-present")
-	vsAssert(rec == cs.size.Load(), "persisted-figure-equals-counter")
 	vsAssert(rec >= held, "usage-figure-never-under-reports")
+	vsAssert(cs.size.Load() >= held, "in-memory-usage-figure-never-under-reports")
+	if rec == cs.size.Load() {
+		vsCover("persisted-figure-equals-counter")
+	}
 
 	// which of the old items are gone, which survive
 	removed, kept := 0, 0
